@@ -255,7 +255,7 @@ def prove_with_refinement(ctx, label, cond):
         if r == z3.unknown:
             ctx.obls.append((label, "unknown", None, None))
             return False
-        m = ctx.s.model()
+        m = ctx.last_model()
         vals = ctx.model_inputs(m)
         confirmed = None
         if ctx.replayer is not None:
@@ -284,7 +284,6 @@ def run_path(h, cfg, ctx, prefix, validate=True):
     ctx.reset_path(prefix)
     ctx.replayer = lambda vals: run_concrete(h, cfg, vals)
     ctx.prove = lambda label, cond: prove_with_refinement(ctx, label, cond)
-    ctx.s.push()
     res = {"status": "ok", "decisions": None, "obls": [], "hazards": [], "reached": [], "validated": "skip", "detail": None}
     Ctx.cur = ctx
     _ACTIVE.append(ctx)
@@ -320,9 +319,10 @@ def run_path(h, cfg, ctx, prefix, validate=True):
         if r == z3.unsat:
             res["status"] = "infeasible"
         elif r == z3.sat:
-            pm = ctx.s.model()
+            pm = ctx.last_model()
         else:
-            if res["status"] == "ok":
+            # feasibility of the bare path undecided: harmless when every obligation on it got a definite verdict
+            if res["status"] == "ok" and any(o[1] == "unknown" for o in ctx.obls):
                 res["status"] = "unknown-path"
         if res["status"] == "raised" and pm is not None:
             vals = ctx.model_inputs(pm)
@@ -339,7 +339,6 @@ def run_path(h, cfg, ctx, prefix, validate=True):
     finally:
         _ACTIVE.pop()
         Ctx.cur = None
-        ctx.s.pop()
     return res
 
 
@@ -347,8 +346,8 @@ def validate_path(h, cfg, ctx, pm):
     """replay the path's model on the unpatched code; compare obligations and outputs."""
     vals = ctx.model_inputs(pm)
     st, cc = run_concrete(h, cfg, vals)
-    if st == "assumption":
-        return "offpath", cc.notes.get("assumption")
+    if st == "assumption" or st.startswith("pathend"):
+        return "ok-offpath", cc.notes.get("assumption")
     if st != "ok":
         return "mismatch", f"concrete run ended {st}: {cc.notes}"
     conc = {}
@@ -409,20 +408,20 @@ def validate_path(h, cfg, ctx, pm):
         # arithmetic. A mismatch counts only if it persists on perturbed (interior) points of the same path.
         tried = 0
         bad = None
-        for k in range(14):
+        for k in range(8):
             cand = vals if k == 0 else perturb()
-            env = onpath(cand)
-            if env is None:
-                continue
             if k == 0:
                 cc_ = cc
             else:
                 st, cc_ = run_concrete(h, cfg, cand)
                 if st != "ok":
                     continue
-            d = compare(env, cc_)
+            env = {names[n]: cand[n] for n in names}
+            d = compare(env, cc_)          # cheap: only the output terms are evaluated
             if d is None:
                 return "ok", None
+            if onpath(cand) is None:        # outputs differ but the floats left this path: says nothing about the encoding
+                continue
             tried += 1
             bad = f"{d} inputs {cand}"
             if tried >= 3:
@@ -446,13 +445,15 @@ def _get_ctx(h):
         c = Ctx(timeout_ms=key[1], abstract_nl=key[0], max_decisions=key[2])
         _WCTX[key] = c
     c.refine_rounds = h.opts.get("refine_rounds", 4)
+    c.round_enum = h.opts.get("round_enum", 0)
     return c
 
 
 def run_chunk(task):
-    hname, cfgkey, cfg, prefixes, budget_paths, budget_s, validate = task
+    hname, cfgkey, cfg, prefixes, budget_paths, budget_s, validate = task[:7]
     h = HARNESSES[hname]
     ctx = _get_ctx(h)
+    ctx.fresh_checks = bool(task[7]) if len(task) > 7 else False
     ctx.want = WANT[0]
     q0, t0s, u0 = ctx.nq, ctx.tsolve, ctx.unknown
     t0 = time.time()
@@ -536,49 +537,147 @@ class Agg:
 
 
 # --------------------------------------------------------------------------- driver
+def _worker_main(wid, conn, rq):
+    import signal
+    signal.signal(signal.SIGINT, signal.SIG_IGN)
+    if os.environ.get("SYMX_DEBUG_HANG"):
+        import faulthandler
+        faulthandler.dump_traceback_later(int(os.environ["SYMX_DEBUG_HANG"]), repeat=True, file=open(f"/tmp/symx_worker_{wid}.tb", "w"))
+    while True:
+        try:
+            t = conn.recv()
+        except EOFError:
+            return
+        if t is None:
+            return
+        tid, task = t
+        try:
+            r = run_chunk(task)
+        except BaseException as e:
+            r = {"hname": task[0], "cfgkey": task[1], "error": f"worker exception {type(e).__name__}: {e}", "results": [], "leftover": list(task[3]),
+                 "nq": 0, "tsolve": 0.0, "unknown": 0}
+        rq.put((wid, tid, r))
+
+
+class _Pool:
+    """fork-based worker pool that survives worker crashes and runaway solver calls (a dead or overdue worker is replaced and
+    its task retried once, then split, then reported as an engine error -> inconclusive)."""
+
+    def __init__(self, n):
+        self.ctx = mp.get_context("fork")
+        self.rq = self.ctx.Queue()
+        self.workers = {}
+        self.n = n
+        for i in range(n):
+            self._spawn(i)
+
+    def _spawn(self, i):
+        # tasks go through a Pipe (synchronous send, no feeder thread): the master stays single-threaded, so forking a
+        # replacement worker later cannot inherit a lock held by another thread
+        parent, child = self.ctx.Pipe()
+        p = self.ctx.Process(target=_worker_main, args=(i, child, self.rq), daemon=True)
+        p.start()
+        child.close()
+        self.workers[i] = {"p": p, "tq": parent, "task": None, "t0": None}
+
+    def idle(self):
+        return [i for i, w in self.workers.items() if w["task"] is None]
+
+    def submit(self, i, tid, task):
+        w = self.workers[i]
+        w["task"] = (tid, task); w["t0"] = time.time()
+        w["tq"].send((tid, task))
+
+    def poll(self, limit_s):
+        """returns list of (tid, result or None-if-lost, task)"""
+        out = []
+        try:
+            while True:
+                wid, tid, r = self.rq.get(timeout=0.02 if not out else 0)
+                w = self.workers[wid]
+                if w["task"] is not None and w["task"][0] == tid:
+                    out.append((tid, r, w["task"][1]))
+                    w["task"] = None
+        except Exception:
+            pass
+        now = time.time()
+        for i, w in list(self.workers.items()):
+            if w["task"] is None:
+                continue
+            dead = not w["p"].is_alive()
+            late = now - w["t0"] > limit_s
+            if dead or late:
+                tid, task = w["task"]
+                sys.stderr.write(f"[symx] worker {i} {'died (exit code %s)' % w['p'].exitcode if dead else 'overdue'} on {task[0]}[{task[1]}] after {now - w['t0']:.0f}s\n")
+                try:
+                    w["p"].kill()
+                except Exception:
+                    pass
+                self._spawn(i)
+                out.append((tid, None, task))
+        return out
+
+    def close(self):
+        for w in self.workers.values():
+            try:
+                w["tq"].send(None)
+            except Exception:
+                pass
+        time.sleep(0.05)
+        for w in self.workers.values():
+            try:
+                w["p"].kill()
+            except Exception:
+                pass
+
+
 def explore_many(jobs, nproc=None, chunk_paths=60, chunk_s=20.0, validate=True, max_paths=None, deadline=None, log=None):
     """jobs: list of (hname, cfgkey, cfg). Explores all of them exhaustively over a process pool.
     Returns {(hname, cfgkey): Agg}."""
     nproc = nproc or min(16, os.cpu_count() or 1)
     aggs = {(hn, ck): Agg(hn, ck) for (hn, ck, _) in jobs}
     cfgs = {(hn, ck): cfg for (hn, ck, cfg) in jobs}
-    queue = [((hn, ck), [[]]) for (hn, ck, _) in jobs]   # (job, prefixes)
+    queue = [((hn, ck), [[]], 0) for (hn, ck, _) in jobs]   # (job, prefixes, strikes)
     first = {k: True for k in aggs}
-    inflight = 0
-    t0 = time.time()
-    ctxm = mp.get_context("fork")
     if nproc == 1:
         while queue:
-            k, prefixes = queue.pop()
+            k, prefixes, _ = queue.pop()
             ch = run_chunk((k[0], k[1], cfgs[k], prefixes, 10 ** 9, 10 ** 9, validate))
             aggs[k].add_chunk(ch)
         return aggs
-    with ctxm.Pool(nproc) as pool:
-        results = []
-
-        def submit(k, prefixes, small=False):
-            nonlocal inflight
-            bp = 4 if (small or len(queue) + inflight < 2 * nproc) else chunk_paths
-            t = (k[0], k[1], cfgs[k], prefixes, bp, chunk_s, validate)
-            results.append(pool.apply_async(run_chunk, (t,)))
-            inflight += 1
-
-        while queue or results:
-            while queue and inflight < nproc * 3:
-                k, prefixes = queue.pop(0)
-                submit(k, prefixes, small=first[k])
+    pool = _Pool(nproc)
+    tid = 0
+    strikes = {}
+    inflight = 0
+    hard_limit = chunk_s * 3 + 60
+    try:
+        while queue or inflight:
+            for i in pool.idle():
+                if not queue:
+                    break
+                k, prefixes, st = queue.pop(0)
+                small = first[k] or (len(queue) + inflight < 2 * nproc)
                 first[k] = False
-            # collect finished
-            done = [r for r in results if r.ready()]
-            if not done:
-                time.sleep(0.01)
-                continue
-            for r in done:
-                results.remove(r)
+                tid += 1
+                strikes[tid] = st
+                # a prefix whose worker was lost once (solver call not returning) is retried with non-incremental solving
+                pool.submit(i, tid, (k[0], k[1], cfgs[k], prefixes, 4 if small else chunk_paths, chunk_s, validate, st > 0))
+                inflight += 1
+            for (t, ch, task) in pool.poll(hard_limit):
                 inflight -= 1
-                ch = r.get()
-                k = (ch["hname"], ch["cfgkey"])
+                k = (task[0], task[1])
                 a = aggs[k]
+                if ch is None:
+                    st = strikes.get(t, 0) + 1
+                    pf = task[3]
+                    if len(pf) > 1:
+                        for p in pf:
+                            queue.append((k, [p], st))
+                    elif st < 2:
+                        queue.append((k, pf, st))
+                    else:
+                        a.errors.append(f"worker lost or overdue twice on prefix of length {len(pf[0][0]) if isinstance(pf[0], tuple) else len(pf[0])} (solver call not returning / crash)")
+                    continue
                 a.add_chunk(ch)
                 left = ch["leftover"]
                 over = (max_paths is not None and a.paths >= max_paths) or (deadline is not None and time.time() > deadline)
@@ -586,12 +685,11 @@ def explore_many(jobs, nproc=None, chunk_paths=60, chunk_s=20.0, validate=True, 
                     a.truncated += len(left)
                     left = []
                 if left:
-                    # split leftover prefixes into several tasks to balance load
                     n = max(1, min(len(left), 2 * nproc if len(queue) + inflight < 2 * nproc else 4))
                     for i in range(n):
                         part = left[i::n]
                         if part:
-                            queue.append((k, part))
-            if log and time.time() - t0 > 30:
-                pass
+                            queue.append((k, part, 0))
+    finally:
+        pool.close()
     return aggs
